@@ -281,7 +281,7 @@ class RFCOMM_Frame:
             length >>= 1
             value = data[2:]
         else:
-            length = (data[3] << 7) & (length >> 1)
+            length = (data[2] << 7) | (length >> 1)
             value = data[3 : 3 + length]
 
         return (mcc_type, c_r, value)
@@ -327,12 +327,19 @@ class RFCOMM_Frame:
             length >>= 1
             information = data[3:-1]
         else:
-            length = (data[3] << 7) & (length >> 1)
+            length = (data[3] << 7) | (length >> 1)
             information = data[4:-1]
         fcs = data[-1]
 
         # Construct the frame and check the CRC
-        frame = RFCOMM_Frame(frame_type, c_r, dlci, p_f, information)
+        frame = RFCOMM_Frame(
+            frame_type,
+            c_r,
+            dlci,
+            p_f,
+            information,
+            with_credits=(frame_type == FrameType.UIH and p_f == 1),
+        )
         if frame.fcs != fcs:
             logger.warning(f'FCS mismatch: got {fcs:02X}, expected {frame.fcs:02X}')
             raise InvalidPacketError('fcs mismatch')
